@@ -15,6 +15,9 @@
 //!   metrics   phantom point deltas x HVAR (direct, index maps) x MVAR x numberOfHMetrics
 //!   invalid1  regions that the scalar algorithm declares invalid (start > peak, peak > end, start < 0 < end with peak != 0)
 //!   extreme   advance widths that are valid uint16 values but exceed the int16 range of a phantom point coordinate
+//!   cvar      cvt tables of 0/1/3/40/300 entries x region sets on 1 and 2 axes x CVT index selections (all, first, last,
+//!             sparse, every, first+last) x shared/private numbers x delta fills x packed delta forms; plus cvar without
+//!             cvt and cvar pointing beyond the cvt
 //!   nested    composites of composites (depth 2 and 3), parents before and after their children in glyph order, with and
 //!             without HVAR: flattened extent => glyf header bounding box and left side bearing
 //! thorough adds, for 1-axis fonts, all 32769 normalised coordinate values.
@@ -38,7 +41,7 @@ const M: [i16; 13] = [0, 1, -1, 63, -63, 64, -64, 127, -127, 128, -128, 300, -30
 /// tolerance: one font unit, plus 2^-10 for implementations that keep "at least 16 fractional bits"
 const TOL: (i128, i128) = (1025, 1024);
 
-const FAMILIES: [&str; 8] = ["iup", "regions1", "regions2", "packing", "metrics", "invalid1", "extreme", "nested"];
+const FAMILIES: [&str; 9] = ["iup", "regions1", "regions2", "packing", "metrics", "invalid1", "extreme", "nested", "cvar"];
 
 // ------------------------------------------------------------------------------------------------ coordinates
 
@@ -120,7 +123,7 @@ fn empty_glyph(advance: u16) -> GlyphDef {
 }
 
 fn base_font(axes: Vec<AxisDef>, glyphs: Vec<GlyphDef>, gvar: Vec<Option<GlyphVar>>) -> VarFont {
-    VarFont { axes, avar: None, glyphs, gvar, gvar_long_offsets: true, gvar_shared_prefix: vec![], hvar: None, mvar: None, num_h_metrics: None }
+    VarFont { axes, avar: None, glyphs, gvar, gvar_long_offsets: true, gvar_shared_prefix: vec![], hvar: None, mvar: None, num_h_metrics: None, cvt: None, cvar: None }
 }
 
 // ---- family iup
@@ -928,6 +931,205 @@ fn gen_nested(idx: &[usize]) -> Option<Case> {
     Some(Case { font, kinds: vec![0], coords, hvar_inconsistent: false, extreme: false })
 }
 
+// ---- family cvar: CVT variations (cvar is a tuple variation store whose "point numbers" are CVT indices)
+
+fn cvar_cvt(kind: usize) -> Option<Vec<i16>> {
+    match kind {
+        0 => Some(vec![]),
+        1 => Some(vec![32767]),
+        2 => Some(vec![-32768, 0, 32767]),
+        3 => Some((0..40).map(|i: i32| [-32768, -32767, -1, 0, 1, 100, 32766, 32767, 700, -450][(i % 10) as usize] as i32 + if i % 10 >= 8 { i } else { 0 }).map(|v| v as i16).collect()),
+        4 => Some((0..300).map(|i: i32| ((i * 97) % 2001 - 1000) as i16).collect()),
+        // malformed: cvar without cvt; cvar referring to a CVT index beyond the cvt table
+        5 => None,
+        _ => Some(vec![10, -20]),
+    }
+}
+
+fn cvar_sel(sel: usize, n: usize) -> Option<PointSel> {
+    let list = |sel: usize| -> Option<Vec<u16>> {
+        if n == 0 {
+            return None;
+        }
+        Some(match sel {
+            1 => vec![0],
+            2 => vec![n as u16 - 1],
+            3 => (0..n).filter(|i| i % 7 == 3 || *i == n - 1).map(|i| i as u16).collect(),
+            4 => (0..n as u16).collect(),
+            _ => {
+                if n < 2 {
+                    return None;
+                }
+                vec![0, n as u16 - 1]
+            }
+        })
+    };
+    if sel == 0 {
+        return Some(PointSel::All);
+    }
+    let l = list(sel)?;
+    // skip selections that coincide with an earlier one (small tables)
+    if (1..sel).any(|e| list(e).as_ref() == Some(&l)) {
+        return None;
+    }
+    Some(PointSel::List(l))
+}
+
+fn cvar_regions(set: usize) -> (usize, Vec<RegionSpec>) {
+    let h = ONE / 2;
+    let q = ONE / 4;
+    match set {
+        0 => (1, vec![(vec![ONE], None)]),
+        1 => (1, vec![(vec![-ONE], None)]),
+        2 => (1, vec![(vec![h], Some((vec![0], vec![ONE])))]),
+        3 => (1, vec![(vec![ONE], None), (vec![h], Some((vec![0], vec![ONE])))]),
+        4 => (1, vec![(vec![ONE], None), (vec![-ONE], None), (vec![h], Some((vec![q], vec![3 * q])))]),
+        5 => (2, vec![(vec![ONE, 0], None)]),
+        6 => (2, vec![(vec![ONE, ONE], None), (vec![0, -ONE], None)]),
+        _ => (2, vec![(vec![h, ONE], Some((vec![0, 0], vec![ONE, ONE]))), (vec![ONE, 0], None), (vec![0, h], None)]),
+    }
+}
+
+fn cvar_fill(f: usize, j: usize, k: usize, value: i16) -> i16 {
+    let seg = |j: usize| -> i16 {
+        let lens = [63usize, 64, 65, 1, 2];
+        let (mut pos, mut s) = (0, 0);
+        loop {
+            let l = lens[s % 5];
+            if j < pos + l {
+                return [0, if j % 2 == 0 { 127 } else { -128 }, if j % 2 == 0 { 300 } else { -129 }][s % 3];
+            }
+            pos += l;
+            s += 1;
+        }
+    };
+    let d = match f {
+        0 | 4 => M[(j + 3 * k + 1) % 13],
+        1 => {
+            if (j + k) % 17 == 0 {
+                300
+            } else if j % 5 == 0 {
+                -1
+            } else {
+                0
+            }
+        }
+        2 => seg(j + 20 * k),
+        _ => {
+            if j % 2 == 0 {
+                127
+            } else {
+                -128
+            }
+        }
+    };
+    if f == 4 {
+        // outward: the entries at the int16 edges leave the range
+        return if value > 32000 {
+            300
+        } else if value < -32000 {
+            -300
+        } else {
+            d
+        };
+    }
+    // entries near the int16 edges only move inwards
+    if value >= 31000 {
+        -(d.abs())
+    } else if value <= -31000 {
+        d.abs()
+    } else {
+        d
+    }
+}
+
+fn gen_cvar(idx: &[usize]) -> Option<Case> {
+    let (ck, set, sel, shared, fill, pack) = (idx[0], idx[1], idx[2], idx[3], idx[4], idx[5]);
+    let cvt = cvar_cvt(ck);
+    let (n_axes, regions) = cvar_regions(set);
+    let values: Vec<i16> = cvt.clone().unwrap_or_default();
+    let n = values.len();
+    let base_sel = if ck >= 5 {
+        // malformed fonts: one configuration each
+        if set != 0 || sel != 0 || shared != 0 || fill != 0 || pack != 0 {
+            return None;
+        }
+        PointSel::List(if ck == 5 { vec![0] } else { vec![0, 5] })
+    } else {
+        cvar_sel(sel, n)?
+    };
+    if n == 0 && shared == 1 {
+        return None;
+    }
+    let mut tuples = Vec::new();
+    for (k, (peak, inter)) in regions.iter().enumerate() {
+        let private = shared == 0 || k == 1;
+        let points = if shared == 1 && k == 1 {
+            // the one private tuple among shared ones uses the other form
+            if base_sel == PointSel::All { PointSel::List((0..n as u16).collect()) } else { PointSel::All }
+        } else {
+            base_sel.clone()
+        };
+        let idxs: Vec<usize> = match &points {
+            PointSel::All => (0..n).collect(),
+            PointSel::List(l) => l.iter().map(|i| *i as usize).collect(),
+        };
+        let deltas: Vec<i16> = idxs.iter().enumerate().map(|(j, i)| cvar_fill(fill, j, k, values.get(*i).copied().unwrap_or(0))).collect();
+        tuples.push(CvarTuple {
+            peak: peak.clone(),
+            inter: inter.clone(),
+            points,
+            deltas,
+            private_points: private,
+            index_bits: if set % 2 == 1 { ((k * 37 + 5) & 0x0FFF) as u16 } else { 0 },
+            pt_pack: PtPack { words: if (set + sel) % 2 == 1 { PtWords::Always } else { PtWords::Auto }, max_run: if shared == 1 { 2 } else { 128 }, two_byte_count: (sel + fill) % 2 == 1 },
+            delta_pack: DeltaPack { mode: [DeltaMode::Auto, DeltaMode::NoZeroRuns, DeltaMode::AllWords, DeltaMode::AbsorbZeros][pack % 4], max_run: if pack / 4 == 0 { 64 } else { 1 } },
+        });
+    }
+    let cvar = Cvar {
+        tuples,
+        shared_points: if shared == 1 { Some(base_sel.clone()) } else { None },
+        shared_pt_pack: PtPack { words: if (set + sel) % 2 == 0 { PtWords::Always } else { PtWords::Auto }, max_run: 128, two_byte_count: (sel + fill) % 2 == 0 },
+    };
+    let square = GlyphDef { shape: Shape::Simple(vec![vec![pt(0, 0, true), pt(100, 0, true), pt(100, 100, true), pt(0, 100, true)]]), advance: 1000, lsb: 0 };
+    let mut peak = vec![0i16; n_axes];
+    peak[0] = ONE;
+    let gv = GlyphVar { tuples: vec![tuple(peak, None, PointSel::All, vec![(10, 0), (20, 5), (-10, 7), (0, -3), (0, 0), (30, 0), (0, 0), (0, 0)])], shared_points: None, shared_pt_pack: PtPack::default() };
+    let mut font = base_font((0..n_axes).map(|i| axis(0, i)).collect(), vec![empty_glyph(600), square], vec![None, Some(gv)]);
+    font.cvt = cvt;
+    font.cvar = Some(cvar);
+    let coords: Vec<Vec<Coord>> = if n_axes == 1 {
+        let axes: Vec<(i16, i16, i16)> = regions.iter().map(|(p, i)| i.as_ref().map_or((p[0].min(0), p[0], p[0].max(0)), |(s, e)| (s[0], p[0], e[0]))).collect();
+        landmarks(&axes).into_iter().map(|c| vec![c]).collect()
+    } else {
+        let vals = [Coord::N(-16384), Coord::N(0), Coord::N(1), Coord::N(8192), Coord::N(16383), Coord::N(16384)];
+        let mut v = Vec::new();
+        for a in vals {
+            for b in vals {
+                v.push(vec![a, b]);
+            }
+        }
+        v.push(vec![Coord::BeyondMax, Coord::N(5461)]);
+        v.push(vec![Coord::N(12288), Coord::BeyondMin]);
+        v
+    };
+    Some(Case { font, kinds: vec![0; n_axes], coords, hvar_inconsistent: false, extreme: false })
+}
+
+/// cvar present but unusable: no cvt table, or a CVT index beyond the table
+fn cvar_malformed(font: &VarFont) -> bool {
+    match (&font.cvar, &font.cvt) {
+        (Some(_), None) => true,
+        (Some(c), Some(v)) => cvar_max_index(c).map_or(false, |m| m as usize >= v.len()),
+        _ => false,
+    }
+}
+
+/// some instanced CVT value does not fit an int16 at these coordinates
+fn cvt_overflows(font: &VarFont, nc: &[i16]) -> bool {
+    eval_cvt(font, nc, &EvalOpts::default()).map_or(false, |v| v.iter().any(|x| x.lt(Rat::int(-32768)) || Rat::int(32767).lt(*x)))
+}
+
 // ---- dispatch
 
 fn gen(family: &str, idx: &[usize]) -> Option<Case> {
@@ -940,6 +1142,7 @@ fn gen(family: &str, idx: &[usize]) -> Option<Case> {
         "invalid1" => gen_invalid1(idx),
         "extreme" => gen_extreme(idx),
         "nested" => gen_nested(idx),
+        "cvar" => gen_cvar(idx),
         _ => None,
     }
 }
@@ -954,6 +1157,7 @@ fn dims(family: &str, thorough: bool) -> Vec<usize> {
         "invalid1" => vec![INVALID_SETS, 6],
         "extreme" => vec![4],
         "nested" => vec![2, 2, 3, 2],
+        "cvar" => vec![7, 8, 6, 2, 5, 8],
         _ => vec![],
     }
 }
@@ -968,6 +1172,9 @@ fn in_tier(family: &str, idx: &[usize], thorough: bool) -> bool {
         "iup" => idx[0] < 64 || idx[0] >= 320 || matches!((idx[0] - 64) % 4, 0 | 2),
         // the rotating profile follows the set; every set meets every axis kind
         "regions2" => idx[1] == 0,
+        // the packed delta form rotates with the other indices; it is enumerated completely for the single-region
+        // fonts with the two larger cvt tables
+        "cvar" => idx[0] >= 5 || idx[5] == (idx[1] + idx[2] + idx[4]) % 8 || (idx[1] == 0 && (idx[0] == 3 || idx[0] == 4)),
         _ => true,
     }
 }
@@ -1016,6 +1223,8 @@ fn witness(s: &Subject<'_>, user: &[i32], extra: Value) -> Value {
         "gvar": s.case.font.gvar.iter().map(|g| format!("{:?}", g)).collect::<Vec<_>>(),
         "hvar": format!("{:?}", s.case.font.hvar),
         "mvar": format!("{:?}", s.case.font.mvar),
+        "cvt": s.case.font.cvt.as_ref().map(|c| if c.len() <= 48 { json!(c) } else { json!(format!("{} entries: (i * 97) % 2001 - 1000", c.len())) }),
+        "cvar": s.case.font.cvar.as_ref().map(|c| format!("{:?}", c).chars().take(3000).collect::<String>()),
         "font_hex": if s.bytes.len() <= 16384 { mcx::hex(s.bytes) } else { String::from("(omitted: regenerate from family and idx)") },
         "detail": extra,
     })
@@ -1105,6 +1314,8 @@ struct Observed {
     nc: Vec<i16>,
     /// MVAR-controllable fields of the output, in the order of `Subject::mvar_defaults`
     fields: Vec<Option<i64>>,
+    /// 'cvt ' of the output
+    cvt: Option<Vec<i16>>,
 }
 
 #[derive(Default)]
@@ -1201,6 +1412,38 @@ fn compare(s: &Subject<'_>, prepared: &Prepared<'_>, o: &Observed, at_default: b
             bad.push(("C12:default-instance-differs-from-default-master".into(), json!({"glyph": g, "source_metrics": [font.glyphs[g].advance as i64, font.glyphs[g].lsb as i64], "got": [adv as i64, lsb as i64]})));
         }
     }
+    // cvt values varied by cvar
+    if let (Some(src), false) = (&font.cvt, cvar_malformed(font)) {
+        match (&o.cvt, eval_cvt(font, nc, &opts)) {
+            (None, _) => {
+                // an empty cvt table carries nothing: dropping it is accepted
+                if !src.is_empty() {
+                    bad.push(("C12:cvar:cvt-missing-from-output".into(), json!({"source_cvt_entries": src.len()})));
+                }
+            }
+            (Some(got), Some(want)) => {
+                if got.len() != src.len() {
+                    bad.push(("C12:cvar:cvt-length-changed".into(), json!({"source_cvt_entries": src.len(), "output_cvt_entries": got.len()})));
+                } else {
+                    for i in 0..src.len() {
+                        let moved = want[i] != Rat::int(src[i] as i64);
+                        flags.nontrivial |= moved;
+                        if want[i].lt(Rat::int(-32768)) || Rat::int(32767).lt(want[i]) {
+                            // not representable: no correct value exists for this entry
+                            continue;
+                        }
+                        let ok = if moved { want[i].within(got[i] as i64, TOL.0, TOL.1) } else { got[i] == src[i] };
+                        if !ok {
+                            let key = if moved { "C12:cvar:value-mismatch" } else { "C12:cvar:unvaried-cvt-entry-changed" };
+                            bad.push((key.into(), json!({"cvt_index": i, "normalised": nc, "default": src[i], "expected": want[i].to_f64(), "got": got[i]})));
+                            break;
+                        }
+                    }
+                }
+            }
+            (Some(_), None) => {}
+        }
+    }
     // MVAR-controlled metrics
     for (k, (vt, def)) in s.mvar_defaults.iter().enumerate() {
         let got = match o.fields[k] {
@@ -1246,6 +1489,17 @@ fn check_one(ctx: &Ctx, s: &Subject<'_>, provider: &impl allsorts::tables::FontT
                 // font. The property constrains *successful* instances only, so a clean refusal is accepted.
                 return (H::new().str("extreme-refused").get(), false, false);
             }
+            if font.cvar.is_some() {
+                // a cvar that cannot be applied (no cvt, CVT index beyond the table) or whose result does not fit an
+                // int16 may be refused cleanly
+                let nc_exp: Vec<i16> = font.axes.iter().enumerate().map(|(i, a)| normalise(a, None, user[i] as i64)).map(|r| (r.n / r.d) as i16).collect();
+                if cvar_malformed(font) || cvt_overflows(font, &nc_exp) {
+                    return (H::new().str("cvar-refused").get(), false, false);
+                }
+                let key = format!("C12:cvar:wellformed-font-rejected:{}", err_class(&e));
+                ctx.violation(&key, || witness(s, user, json!({"error": e})));
+                return (H::new().str("error").get(), false, false);
+            }
             let key = format!("C12:wellformed-font-rejected:{}", err_class(&e));
             ctx.violation(&key, || witness(s, user, json!({"error": e})));
             return (H::new().str("error").get(), false, false);
@@ -1289,7 +1543,7 @@ fn check_one(ctx: &Ctx, s: &Subject<'_>, provider: &impl allsorts::tables::FontT
     };
     for t in [b"fvar", b"avar", b"gvar", b"cvar", b"HVAR", b"MVAR", b"VVAR"] {
         if sf.tags.contains(&tag(t)) {
-            ctx.violation("C12:variation-table-left-in-output", || witness(s, user, json!({"table": String::from_utf8_lossy(t)})));
+            ctx.violation(if t == b"cvar" { "C12:cvar:cvar-left-in-output" } else { "C12:variation-table-left-in-output" }, || witness(s, user, json!({"table": String::from_utf8_lossy(t)})));
         }
     }
     let loaded = guard(|| {
@@ -1318,7 +1572,8 @@ fn check_one(ctx: &Ctx, s: &Subject<'_>, provider: &impl allsorts::tables::FontT
         Some(of) => s.mvar_defaults.iter().map(|(vt, _)| field(&of, *vt)).collect(),
         None => vec![None; s.mvar_defaults.len()],
     };
-    let obs = Observed { sf, nc, fields };
+    let cvt_out: Option<Vec<i16>> = otmodel::sfnt::parse(&out).and_then(|of| of.table(tag(b"cvt ")).map(|d| d.chunks(2).filter(|c| c.len() == 2).map(|c| i16::from_be_bytes([c[0], c[1]])).collect()));
+    let obs = Observed { sf, nc, fields, cvt: cvt_out };
 
     let mut flags = Flags::default();
     let bad = compare(s, &s.prepared, &obs, at_default, &mut flags);
@@ -1359,6 +1614,9 @@ fn check_one(ctx: &Ctx, s: &Subject<'_>, provider: &impl allsorts::tables::FontT
     }
     for f in &obs.fields {
         h = h.u64(f.unwrap_or(i64::MIN) as u64);
+    }
+    for v in obs.cvt.iter().flatten() {
+        h = h.u64(*v as u16 as u64);
     }
     (h.get(), flags.nontrivial, flags.inferred)
 }
@@ -1409,6 +1667,7 @@ fn run_case(ctx: &Ctx, family: &str, idx: &[usize], case: &Case, users: &[Vec<i3
 static INFERRED: std::sync::atomic::AtomicU64 = std::sync::atomic::AtomicU64::new(0);
 
 fn run_family(ctx: &Ctx, family: &str, thorough: bool) {
+    let t0 = ctx.elapsed();
     let d = dims(family, thorough);
     let total: usize = d.iter().product();
     let (fonts, evals): (u64, u64) = (0..total)
@@ -1430,7 +1689,7 @@ fn run_family(ctx: &Ctx, family: &str, thorough: bool) {
     ctx.evals(evals);
     ctx.add_states(total as u64 + fonts + evals);
     ctx.add_transitions(fonts + evals);
-    ctx.set(&format!("family_{}", family), json!({"index_space": d, "fonts": fonts, "instances": evals}));
+    ctx.set(&format!("family_{}", family), json!({"index_space": d, "fonts": fonts, "instances": evals, "wall_s": ((ctx.elapsed() - t0) * 100.0).round() / 100.0}));
 }
 
 /// Model fonts and user tuples handed to C09, which runs the structural validator on the instancer's output: a
@@ -1470,6 +1729,10 @@ pub fn seeds_for_c01() -> Vec<(String, Vec<u8>)> {
     add("regions1", vec![60, 3, 0, 1]);
     add("regions2", vec![40, 0]);
     add("packing", vec![1, 1, 1, 4, 1, 1, 1]);
+    // well-formed cvt + cvar: 40 CVT entries, three tuples incl. an intermediate region, shared and private CVT index
+    // lists; 3 entries on two axes with all-entries tuples
+    add("cvar", vec![3, 4, 3, 1, 0, 0]);
+    add("cvar", vec![2, 6, 0, 0, 0, 6]);
     out.extend(composite_seeds());
     out
 }
@@ -1602,6 +1865,8 @@ pub fn run(ctx: &Ctx) {
     ctx.assume("a glyph without contours has no xMin: lsb 0 (hmtx recommendation) and 0 - pp1.x are both accepted");
     ctx.assume("when HVAR disagrees with the gvar phantom point deltas (font not self-consistent) either source is accepted for the advance (HarfBuzz uses HVAR, fontTools the phantom points)");
     ctx.assume("the glyf header bounding box is the box of all points of the (flattened) outline, on- and off-curve ('coordinate data'); it is demanded for composites and for simple glyphs whose points moved, against the exact model or the rounded output outline, each value within one unit");
+    ctx.assume("cvar: cvt[i] = default + sum scalar * delta, any rounding of the sum within one unit is accepted (the specification says the deltas are applied to the CVT values and is silent on rounding; fontTools and allsorts round the summed delta once); entries no region touches must be byte-identical; an entry whose exact value leaves the int16 range has no correct value (any value, or a clean error, is accepted)");
+    ctx.assume("cvar without a cvt table, or referring to a CVT index beyond the table, is malformed: the specification gives no rule; a clean error or an instance that ignores the variation is accepted, a panic is not");
     ctx.assume("STAT is not a variation table (static fonts carry it); fvar, avar, gvar, cvar, HVAR, MVAR, VVAR must be absent from the output");
     ctx.assume("packed deltas are encoded with runs that do not span the boundary between the x and y arrays (FreeType and HarfBuzz decode the two arrays separately)");
     ctx.assume("model fonts: axis tags TSTA/TSTB (no wght/wdth/slnt side effects on OS/2), axes -1..0..1, -16384..0..16384 and 0..0..1 so that user values hit normalised grid values exactly");
